@@ -452,10 +452,151 @@ def correspond(ctx):
                           "the C compiler command recorded for --cc <dir>/%s differs between compiler processes (hash seeds): %s" % (rel, sorted(v[1] for v in vals)),
                           detail={"cc": rel, "observed": sorted(map(list, vals)),
                                   "replay": "ln -s $(command -v g++) <dir>/%s; nelua --cc <dir>/%s --code -o out.c hello.nelua (several processes / seeds); compare the 'Compile command' heading" % (rel, rel)})
+    # ---- (b2) every build mode, and sequences of modes sharing one cache directory
+    # Per step: the commands nelua reports with --verbose (C compiler, ar, strip), its cache decisions,
+    # stderr, exit status and a digest of the artefact (archives: member names + member contents) must
+    # coincide between compiler processes (seeds / ASLR); the artefact and the commands of the last step
+    # must also coincide with the same mode run alone in a cold directory (warm caches made by OTHER modes).
+    mdir = os.path.join(work, "modes")
+    os.makedirs(mdir)
+    LIBSRC = "local function c07_add(a: integer, b: integer): integer <cexport>\n  return a + b\nend\nprint(c07_add(1, 2))\n"
+    with open(os.path.join(mdir, "lib.nelua"), "w") as f:
+        f.write(LIBSRC)
+    MODES = {"object": ("--object", ".o"), "static": ("--static-lib", ".a"), "shared": ("--shared-lib", ".so"),
+             "assembly": ("--assembly", ".s"), "code": ("--code", ".c"), "binary": ("--binary", "")}
+    seqs = [[m] for m in MODES] + [["object", "static"], ["static", "object"], ["object", "shared", "static"],
+                                   ["code", "binary", "object"], ["assembly", "static", "static"],
+                                   ["binary", "object", "static", "shared"], ["shared", "object", "assembly", "static"]]
+    for _ in range(ctx.scale(3, 60)):
+        seqs.append([ctx.rng.choice(list(MODES)) for _ in range(ctx.rng.randint(2, 5))])
+    mvariants = [(0, True), (0, True), (1, False), (2, True)]      # two processes of the time/address-seeded interpreter, two forced seeds
+    FIELDS = ["exit status", "cache decisions", "command lines", "stderr", "artefact"]
+
+    def digest(path, ext):
+        if not os.path.exists(path):
+            return "missing"
+        if ext == ".a":
+            names = subprocess.run(["ar", "t", path], stdout=subprocess.PIPE, stderr=subprocess.PIPE, text=True).stdout.split()
+            body = subprocess.run(["ar", "p", path], stdout=subprocess.PIPE, stderr=subprocess.PIPE).stdout
+            return "members=%s sha=%s" % (",".join(names), hashlib.sha256(body).hexdigest()[:16])
+        with open(path, "rb") as fh:
+            return "sha=" + hashlib.sha256(fh.read()).hexdigest()[:16]
+
+    def mode_run(si, vi, only_last=False):
+        ii, aslr = mvariants[vi]
+        cache = os.path.join(mdir, "s%d" % si, "cache")      # the same path for every variant (they run one after the other)
+        shutil.rmtree(cache, ignore_errors=True)
+        steps = []
+        for m in (seqs[si][-1:] if only_last else seqs[si]):
+            flag, ext = MODES[m]
+            cmd = [interps[ii][1], "-lnelua", os.path.join(vlib.REPO, "nelua.lua"), "--verbose", "--cache-dir", cache, flag, "lib.nelua"]
+            if not aslr:
+                cmd = ["setarch", os.uname().machine, "-R"] + cmd
+            p = subprocess.run(cmd, cwd=mdir, env=env, stdout=subprocess.PIPE, stderr=subprocess.PIPE, timeout=300, text=True, errors="replace")
+            lines = p.stdout.splitlines()
+            decisions = tuple(l for l in lines if l.startswith(("generated ", "using cached ")))
+            commands = tuple(l for l in lines if not l.startswith(("generated ", "using cached ")))
+            steps.append((p.returncode, decisions, commands, p.stderr[-600:], digest(os.path.join(cache, "lib" + ext), ext)))
+        return steps
+
+    mode_res, cold_res = {}, {}
+
+    def seq_job(si):      # the variants of one sequence in turn, then its last mode alone in the (emptied) same directory
+        return [mode_run(si, vi) for vi in range(len(mvariants))], (mode_run(si, 0, only_last=True)[0] if len(seqs[si]) > 1 else None)
+    with concurrent.futures.ThreadPoolExecutor(max_workers=8) as ex:      # parallel over sequences
+        for si, (lst, cold1) in enumerate(ex.map(seq_job, range(len(seqs)))):
+            for vi, steps in enumerate(lst):
+                mode_res[(si, vi)] = steps
+            cold_res[si] = cold1
+    mode_runs = sum(len(v) for v in mode_res.values()) + sum(1 for v in cold_res.values() if v)
+    tmp_hits = []
+    for si, seq in enumerate(seqs):
+        runs = [mode_res[(si, vi)] for vi in range(len(mvariants))]
+        flags = [MODES[x][0] for x in seq]
+        for k, m in enumerate(seq):
+            obs = [r[k] for r in runs]
+            for o in obs:
+                for text in o[2] + (o[3],):
+                    if TMP_RE.search(text):
+                        tmp_hits.append((flags[:k + 1], text[:300]))
+            # whether a cached binary is reused depends on wall-clock seconds (strictly newer mtime), not on
+            # the process: cache decisions are not compared, and a step that reused its artefact (no command
+            # printed) is compared on the artefact, stderr and exit status only
+            ran = {o[2] for o in obs if o[2]}
+            cmp_obs = [(o[0], (), (next(iter(ran)) if len(ran) == 1 and not o[2] else o[2]), o[3], o[4]) for o in obs]
+            if len(set(cmp_obs)) > 1:
+                obs = cmp_obs
+                n_nondet += 1
+                what = [n for i, n in enumerate(FIELDS) if len({o[i] for o in obs}) > 1]
+                first = FIELDS.index(what[0])
+                ctx.violation("nondeterministic build: %s in one cache dir, step %d" % (" ".join(flags[:k + 1]), k + 1), "oracle",
+                              "%s of `nelua %s lib.nelua` (after %s in the same --cache-dir) differ between compiler processes: %s" %
+                              (", ".join(what), flags[k], flags[:k] or "nothing", sorted({str(o[first])[:260] for o in obs})),
+                              detail={"program": LIBSRC, "sequence": flags[:k + 1], "observations": [list(map(str, o)) for o in obs],
+                                      "replay": "in an empty --cache-dir run `nelua --verbose <mode> lib.nelua` for the modes %s one after the other, in two separate runs; compare the last step" % flags[:k + 1]})
+                break
+            if k == len(seq) - 1 and cold_res.get(si):
+                c, w = cold_res[si], runs[0][k]
+                diff = []
+                if w[4] != c[4]:
+                    diff.append("artefact %s vs cold %s" % (w[4], c[4]))
+                if w[2] and c[2] and w[2] != c[2]:
+                    diff.append("commands %s vs cold %s" % (list(w[2]), list(c[2])))
+                if w[0] != c[0]:
+                    diff.append("exit status %s vs cold %s" % (w[0], c[0]))
+                if diff:
+                    n_nondet += 1
+                    ctx.violation("cold-vs-warm build: %s after %s in one cache dir" % (flags[k], " ".join(flags[:k])), "oracle",
+                                  "`nelua %s lib.nelua` in a cache directory warmed by %s differs from the same build in an empty directory: %s" %
+                                  (flags[k], flags[:k], "; ".join(diff)[:600]),
+                                  detail={"program": LIBSRC, "sequence": flags, "warm": list(map(str, w)), "cold": list(map(str, c))})
+    # ---- generic oracle: no command line or diagnostic carries an os.tmpname() path
+    for rel, vals in cc_seen.items():
+        for v in vals:
+            if TMP_RE.search(v[1]):
+                tmp_hits.append((["--cc " + rel], v[1][:300]))
+    if tmp_hits:
+        seqk, text = tmp_hits[0]
+        ctx.violation("tmpname in command/diagnostic: %s" % " ".join(seqk), "oracle",
+                      "a command line or diagnostic contains an os.tmpname() path, which is not a function of sources and options: %s" % text,
+                      detail={"program": LIBSRC, "occurrences": [[" ".join(a), b] for a, b in tmp_hits[:6]]})
+
+    # ---- (b3) the --print-* outputs are outputs too
+    pdir = os.path.join(work, "prints")
+    os.makedirs(pdir)
+    PSRC = "require 'string'\nlocal function f(x: integer) return x + 1 end\nprint(f(1), 'a' .. 'b')\n"
+    with open(os.path.join(pdir, "p.nelua"), "w") as f:
+        f.write(PSRC)
+    ADDR_RE = re.compile(r'\w+ = "(?:table|function|userdata|thread): 0x[0-9a-f]+"')
+
+    def print_job(a):
+        flag, vi = a
+        ii, aslr = mvariants[vi]
+        cmd = [interps[ii][1], "-lnelua", os.path.join(vlib.REPO, "nelua.lua"), flag, "p.nelua"]
+        if not aslr:
+            cmd = ["setarch", os.uname().machine, "-R"] + cmd
+        p = subprocess.run(cmd, cwd=pdir, env=env, stdout=subprocess.PIPE, stderr=subprocess.PIPE, timeout=300, text=True, errors="replace")
+        return flag, (p.returncode, hashlib.sha256(p.stdout.encode()).hexdigest()[:16], p.stderr[-300:]), ADDR_RE.findall(p.stdout)[:3]
+    print_seen, print_addr = {}, {}
+    print_flags = ["--print-ast", "--print-analyzed-ast", "--print-ppcode", "--print-code"]
+    with concurrent.futures.ThreadPoolExecutor(max_workers=8) as ex:
+        for flag, r, addrs in ex.map(print_job, [(fl, vi) for fl in print_flags for vi in range(len(mvariants))]):
+            print_seen.setdefault(flag, set()).add(r)
+            if addrs:
+                print_addr[flag] = addrs
+    for flag in print_flags:
+        if len(print_seen[flag]) > 1:
+            n_nondet += 1
+            ctx.violation("nondeterministic output: %s" % flag, "oracle",
+                          "the output of `nelua %s p.nelua` differs between compiler processes%s" %
+                          (flag, (": it prints object addresses, e.g. %s" % print_addr[flag]) if flag in print_addr else ""),
+                          detail={"program": PSRC, "observations": sorted(map(str, print_seen[flag]))[:4],
+                                  "replay": "nelua %s p.nelua | sha256sum   (twice)" % flag})
     shutil.rmtree(work, ignore_errors=True)
     return {
+        "build_mode_sequences": len(seqs), "build_mode_runs": mode_runs, "print_mode_runs": len(print_flags) * len(mvariants),
         "cc_name_runs": cc_runs, "cc_names": [c[0] for c in cc_names],
-        "evaluations": len(cases) * len(impl) + len(jobs) + cc_runs,
+        "evaluations": len(cases) * len(impl) + len(jobs) + cc_runs + mode_runs + len(print_flags) * len(mvariants),
         "distinct_nontrivial": len(nontrivial) + len(progs),
         "rule": "(a) op cases = corpus + generated (ospairs tables under two insertion orders, memoize call sequences with numbers/strings/tables, "
                 "usedby graphs with cycles under two insertion/query orders, Type:_init codename sequences), each run under %d interpreter/ASLR variants; "
